@@ -1,11 +1,13 @@
 """C18 - snapshot and export report the recorded history faithfully (structural clause).
 
-* C18.own-guard  every snapshot column write is control-dependent on the membership test of ITS OWN variable
-                 (`v in variables`) and on no other variable's membership test
-* C18.pairing    each variable is converted with, and labelled by, its own unit parameter (torque <-> torque_unit,
-                 driving torque <-> driving_torque_unit, stresses <-> stress_unit, ...); the data come from
-                 time_variables[<same variable>]; columns list built from the same mapping
-* C18.interp     abscissae and query both in seconds; interp1d with default (linear) kind
+* C18.own-guard  snapshot's column-writing part evaluated abstractly for one element of every concrete class and every
+                 single-variable selection [v]: a column is written iff the element records v (its own computability
+                 flag; flags implied by it may be tested too) - no other column, no dependence on other variables
+* C18.pairing    the written label is `v (<v's own unit parameter>)` and the cells are one converted value per sample of
+                 time_variables[v], each SI(sample)/F[that same unit]; predeclared columns use the same labels
+* C18.interp     the cell is interp1d(x, y)(q) with x the recorded instants and q the target time as the same function of
+                 an instant (same time unit), default/linear kind
+* C18.range      every instant of the simulated interval, first and last included, is admitted
 * C18.pure       snapshot keeps no state on the powertrain (no cached axis)
 * C18.export     export: one column per recorded key, label unit == conversion unit from the mapping, time column in
                  time_unit, index=False; Powertrain.export_time_variables forwards every unit to the same-named
@@ -14,6 +16,7 @@ Not decided: numeric interpolation results."""
 from __future__ import annotations
 
 import ast
+import re
 
 from sa.srcmodel import strip_docstring, walk_no_nested
 
@@ -29,247 +32,181 @@ FLAG_OF = {'tangential force': {'tangential_force_is_computable'},
            'electric current': {'electric_current_is_computable'}}
 
 
-def conjuncts(test):
-    if isinstance(test, ast.BoolOp) and isinstance(test.op, ast.And):
-        out = []
-        for v in test.values:
-            out += conjuncts(v)
-        return out
-    return [test]
 
 
-def membership(test, env):
-    """('x', positive) if test is `<const or const-bound name> in variables`"""
-    if isinstance(test, ast.Compare) and len(test.ops) == 1 and isinstance(test.ops[0], (ast.In, ast.NotIn)) \
-            and isinstance(test.comparators[0], ast.Name) and test.comparators[0].id == 'variables':
-        l = test.left
-        if isinstance(l, ast.Constant) and isinstance(l.value, str):
-            return l.value, isinstance(test.ops[0], ast.In)
-        if isinstance(l, ast.Name) and l.id in env and isinstance(env[l.id], str):
-            return env[l.id], isinstance(test.ops[0], ast.In)
-        return '?', True
-    return None
 
 
-class SnapshotWalker:
-    """unrolls the constant zip loops and the guarded work lists of Powertrain.snapshot and yields every
-    column write with its variable, its unit name, its data source and its controlling tests"""
-
-    def __init__(self, fn):
-        self.fn = fn
-        self.writes = []        # dict(variable, unit, label_unit, data_key, conv_unit, guards, lineno, interp, query)
-        self.problems = []
-
-    def run(self):
-        self.block(strip_docstring(self.fn.body), {}, [], {})
-        return self.writes
-
-    def const_list(self, node, env):
-        if isinstance(node, (ast.List, ast.Tuple)):
-            out = []
-            for e in node.elts:
-                if isinstance(e, ast.Constant):
-                    out.append(('const', e.value))
-                elif isinstance(e, ast.Name):
-                    out.append(('name', e.id))
-                else:
-                    return None
-            return out
-        if isinstance(node, ast.Name) and node.id in env and isinstance(env[node.id], list):
-            return env[node.id]
-        return None
-
-    def block(self, stmts, env, guards, lists):
-        for s in stmts:
-            if isinstance(s, ast.If):
-                self.block(s.body, dict(env), guards + [(c, True) for c in conjuncts(s.test)], lists)
-                if s.orelse:
-                    self.block(s.orelse, dict(env), guards + [(s.test, False)], lists)
-                continue
-            if isinstance(s, ast.For):
-                it = s.iter
-                if isinstance(it, ast.Call) and isinstance(it.func, ast.Name) and it.func.id == 'zip' and len(it.args) == 2 \
-                        and isinstance(s.target, ast.Tuple) and len(s.target.elts) == 2:
-                    a = self.work_or_const(it.args[0], env, lists)
-                    b = self.work_or_const(it.args[1], env, lists)
-                    if a is not None and b is not None:
-                        if len(a) != len(b):
-                            self.problems.append((s.lineno, 'variable and unit lists of different length'))
-                        for (va, ga), (vb, gb) in zip(a, b):
-                            e2 = dict(env)
-                            e2[s.target.elts[0].id] = va[1] if va[0] == 'const' else ('name', va[1])
-                            e2[s.target.elts[1].id] = ('name', vb[1]) if vb[0] == 'name' else vb[1]
-                            extra = list(ga)
-                            if [ast.dump(x[0]) for x in ga] != [ast.dump(x[0]) for x in gb]:
-                                self.problems.append((s.lineno, f'{va[1]!r} and its unit are appended under different conditions'))
-                            self.block(s.body, e2, guards + extra, lists)
-                        continue
-                # other loops (over elements, over instants): walk the body once
-                self.block(s.body, dict(env), guards, lists)
-                continue
-            if isinstance(s, ast.Assign) and len(s.targets) == 1:
-                t = s.targets[0]
-                if isinstance(t, ast.Name) and isinstance(s.value, (ast.List,)) and not s.value.elts:
-                    lists[t.id] = []
-                    continue
-                if isinstance(t, ast.Name):
-                    env[t.id] = s.value          # remember the defining expression (interpolation_function = interp1d(...))
-                    continue
-                if isinstance(t, ast.Subscript) and isinstance(t.value, ast.Attribute) and t.value.attr == 'loc' \
-                        and isinstance(t.value.value, ast.Name) and t.value.value.id == 'data':
-                    self.column_write(s, t, env, guards)
-                    continue
-            if isinstance(s, ast.Expr) and isinstance(s.value, ast.Call) and isinstance(s.value.func, ast.Attribute) \
-                    and s.value.func.attr == 'append' and isinstance(s.value.func.value, ast.Name) \
-                    and s.value.func.value.id in lists and len(s.value.args) == 1:
-                a = s.value.args[0]
-                item = ('const', a.value) if isinstance(a, ast.Constant) else (('name', a.id) if isinstance(a, ast.Name) else ('?', ast.unparse(a)))
-                lists[s.value.func.value.id].append((item, list(guards)))
-                continue
-
-    def work_or_const(self, node, env, lists):
-        if isinstance(node, ast.Name) and node.id in lists:
-            return lists[node.id]
-        c = self.const_list(node, env)
-        if c is not None:
-            return [(x, []) for x in c]
-        return None
-
-    def resolve_str(self, node, env):
-        """string value of a constant / const-bound name; ('name', x) for a unit parameter name"""
-        if isinstance(node, ast.Constant) and isinstance(node.value, str):
-            return node.value
-        if isinstance(node, ast.Name):
-            v = env.get(node.id)
-            if isinstance(v, str):
-                return v
-            if isinstance(v, tuple) and v[0] == 'name':
-                return v
-            return ('name', node.id)
-        return None
-
-    def column_write(self, s, target, env, guards):
-        sl = target.slice
-        col = sl.elts[1] if isinstance(sl, ast.Tuple) and len(sl.elts) == 2 else None
-        variable = label_unit = None
-        if isinstance(col, ast.Constant):
-            variable = col.value.split(' (')[0]
-            label_unit = col.value.split(' (')[1].rstrip(')') if ' (' in col.value else None
-        elif isinstance(col, ast.JoinedStr):
-            parts = [p for p in col.values]
-            fvals = [p.value for p in parts if isinstance(p, ast.FormattedValue)]
-            if len(fvals) == 2:
-                variable = self.resolve_str(fvals[0], env)
-                label_unit = self.resolve_str(fvals[1], env)
-            elif len(fvals) == 0:
-                text = ''.join(p.value for p in parts if isinstance(p, ast.Constant))
-                variable = text.split(' (')[0]
-                label_unit = text.split(' (')[1].rstrip(')') if ' (' in text else None
-            elif len(fvals) == 1:
-                # f'electric current ({current_unit})'
-                text = ''.join(p.value for p in parts if isinstance(p, ast.Constant))
-                variable = text.split(' (')[0]
-                label_unit = self.resolve_str(fvals[0], env)
-        # the interpolating function used on the right-hand side
-        rhs = s.value
-        interp = None
-        query = None
-        for n in ast.walk(rhs):
-            if isinstance(n, ast.Call) and isinstance(n.func, ast.Name) and n.func.id in env and isinstance(env[n.func.id], ast.Call):
-                interp = env[n.func.id]
-                query = n.args[0] if n.args else None
-        data_key = conv_unit = None
-        xunit = None
-        kind = None
-        if interp is not None:
-            kw = {k.arg: k.value for k in interp.keywords}
-            y = kw.get('y', interp.args[1] if len(interp.args) > 1 else None)
-            x = kw.get('x', interp.args[0] if interp.args else None)
-            kind = kw.get('kind')
-            for n in ast.walk(y) if y is not None else []:
-                if isinstance(n, ast.Subscript) and isinstance(n.value, ast.Attribute) and n.value.attr == 'time_variables':
-                    data_key = self.resolve_str(n.slice, env)
-                if isinstance(n, ast.Call) and isinstance(n.func, ast.Attribute) and n.func.attr == 'to' and n.args:
-                    conv_unit = self.resolve_str(n.args[0], env)
-            for n in ast.walk(x) if x is not None else []:
-                if isinstance(n, ast.Call) and isinstance(n.func, ast.Attribute) and n.func.attr == 'to' and n.args:
-                    xunit = self.resolve_str(n.args[0], env)
-        qunit = None
-        if query is not None:
-            for n in ast.walk(query):
-                if isinstance(n, ast.Call) and isinstance(n.func, ast.Attribute) and n.func.attr == 'to' and n.args:
-                    qunit = self.resolve_str(n.args[0], env)
-        self.writes.append(dict(variable=variable, label_unit=label_unit, data_key=data_key, conv_unit=conv_unit,
-                                guards=list(guards), lineno=s.lineno, interp=interp, kind=kind, xunit=xunit, qunit=qunit, env=dict(env)))
 
 
-def uname(u):
-    return u[1] if isinstance(u, tuple) else u
+
+
+RECORDERS = {            # which element classes record a variable (subclass test), and under which computability flags
+    'pwm': ('MotorBase',), 'electric current': ('MotorBase',),
+    'tangential force': ('GearBase', 'WormGear'), 'bending stress': ('GearBase',), 'contact stress': ('GearBase',),
+}
 
 
 def check_snapshot(model, rep):
+    """the column-writing part of Powertrain.snapshot evaluated abstractly for one element of every concrete class and
+    every single-variable selection [v]: loops over the element tuple, the zip of literal lists and the guarded work lists
+    are unrolled over concrete lists, the recorded lists and the time axis are abstract sequences (comprehensions over them
+    are map values), interp1d(...) is a recorded constructor whose call yields an atom.  However the statements are
+    spelled (locals, helpers, one return), the writes and their cells are what is compared."""
+    from sa import sx as sxm
+    from sa.algebra import Rat
+    from sa.spec.variables import VARIABLE_KINDS
+    from sa.sx import SX, Sv, Tv, Uv, U, Ov, Seq, Unk, Mv, N, Q, Bv, Fv, CannotDecide
+    import ast as _ast
     m = model.member('Powertrain', 'snapshot')
-    w = SnapshotWalker(m.node)
-    writes = w.run()
-    rep.inspect(len(writes))
-    for ln, what in w.problems:
-        rep.violation('C18.pairing', 'Powertrain.snapshot:lists', what, f'{m.module}:{ln}')
+    body = strip_docstring(m.node.body)
+    frames = [i for i, n in enumerate(body) if isinstance(n, ast.Assign) and isinstance(n.value, ast.Call)
+              and ast.unparse(n.value.func).endswith('DataFrame')]
+    if len(frames) != 1 or not isinstance(body[frames[0]].targets[0], ast.Name):
+        rep.cannot('C18.own-guard', 'Powertrain.snapshot', 'creation of the result frame not found', m.loc)
+        return set()
+    table = body[frames[0]].targets[0].id
+    tail = body[frames[0] + 1:]
+    classes = sorted(c for c in model.subclasses('RotatingObject') if not model.is_abstract_class(c))
+    T = Rat.atom('T')
     seen_vars = set()
-    for wr in writes:
-        v = wr['variable']
-        loc = f'{m.module}:{wr["lineno"]}'
-        if not isinstance(v, str) or v not in UNIT_PARAM:
-            rep.cannot('C18.own-guard', f'Powertrain.snapshot[line-independent:{v}]', f'column write for an unrecognised variable {v!r}', loc)
-            continue
-        seen_vars.add(v)
+    problems = {v: {'own': None, 'flags': None, 'pair': None, 'interp': None} for v in UNIT_PARAM}
+    n_eval = 0
+    for cls in classes:
+        for v, param in UNIT_PARAM.items():
+            sx = SX(model)
+            sx.eval_comprehensions = True
+            sx.variable_kinds = VARIABLE_KINDS
+            sx.opaque_calls |= {f for fl in FLAG_OF.values() for f in fl}
+            sxm.POSITIVE_ATOMS.clear()
+            interps = []
+
+            def hook(sx_, n, f, recv, args, kwargs, st, frame, interps=interps):
+                if isinstance(f, ast.Name) and f.id == 'interp1d' or (isinstance(f, ast.Attribute) and f.attr == 'interp1d'):
+                    interps.append({'args': list(args), 'kw': dict(kwargs), 'queries': []})
+                    return [(st, Fv(f'interp#{len(interps) - 1}'))]
+                fun = st.env.get(f.id) if isinstance(f, ast.Name) else (recv if isinstance(f, ast.Call) else None)
+                if isinstance(fun, Fv) and fun.name.startswith('interp#'):
+                    k = int(fun.name.split('#')[1])
+                    interps[k]['queries'].append(args[0] if args else None)
+                    return [(st, N(Rat.atom(f'interp#{k}@{len(interps[k]["queries"]) - 1}'), 'float'))]
+                return None
+            sx.call_hook = hook
+            el = Ov('el', cls, True)
+            env = {'self': Ov('self', 'Powertrain', True), 'variables': Tv([Sv(v)]), 'target_time': Q('Time', T, U(sym='tq')),
+                   table: Unk(table), 'print_data': Bv(False)}
+            for a in m.node.args.args + m.node.args.kwonlyargs:
+                if a.arg.endswith('_unit'):
+                    env[a.arg] = Uv(U(sym=a.arg))
+            st = sxm.State(env=env)
+            st.heap[('self', 'elements')] = Tv([el], 'tuple')
+            st.heap[('self', 'time')] = Seq('self.time', ('q', 'Time'))
+            st.heap[('el', 'name')] = Sv('el')
+            frame = {'module': m.module, 'cls': 'Powertrain', 'fn': m.node, 'depth': 0}
+            try:
+                outs = sx.block(tail, [st], frame)
+            except CannotDecide as e:
+                rep.cannot('C18.own-guard', f'Powertrain.snapshot[{v}]', f'{e} (element class {cls})', m.loc)
+                return seen_vars
+            n_eval += len(outs)
+            records = v not in RECORDERS or any(model.is_subclass(cls, b) for b in RECORDERS[v])
+            F = FLAG_OF.get(v, set())
+            want_label = v if param is None else f'{v} (<{param}>)'
+            P = problems[v]
+            for o in outs:
+                if o.kind == 'raise':
+                    P['own'] = P['own'] or (f'with only {v!r} selected the snapshot of a {cls} raises {o.value}', o.loc)
+                    continue
+                writes = [e for e in o.state.effects if e[0] == 'setitem' and e[1].startswith(table)]
+                flags = {}
+                for g in o.state.guards:
+                    if g.kind == 'truth' and isinstance(g.key[0], str) and g.key[0].startswith('el.') and g.key[0].endswith('_is_computable'):
+                        flags[g.key[0][3:]] = g.pol
+                labels = []
+                for e in writes:
+                    idx = e[5] if len(e) > 5 else None
+                    lab = idx.items[1].s if isinstance(idx, Tv) and len(idx.items) == 2 and isinstance(idx.items[1], Sv) else None
+                    labels.append(lab)
+                foreign = [l for l in labels if l != want_label]
+                if foreign and isinstance(foreign[0], str) and (foreign[0].startswith(v + ' (') or foreign[0] == v):
+                    P['pair'] = P['pair'] or (f'the {v!r} column of a {cls} is labelled {foreign[0]!r}, its own unit parameter gives {want_label!r}', writes[0][4])
+                    seen_vars.add(v)
+                    continue
+                if foreign:
+                    P['own'] = P['own'] or (f'with only {v!r} selected a {cls} gets the column {foreign[0]!r} (the column appears although it was '
+                                            f'not requested, or is labelled with another unit)', writes[0][4])
+                    continue
+                if len(writes) > 1:
+                    P['own'] = P['own'] or (f'the {v!r} column of a {cls} is written {len(writes)} times', writes[0][4])
+                    continue
+                wrote = len(writes) == 1
+                own_flag = {k for k in F if k.split('_is_')[0].replace('_', ' ') == v}      # the variable's own flag; the rest of F is implied by it
+                own_true = all(flags.get(f) is True for f in own_flag)
+                own_false = any(flags.get(f) is False for f in F)
+                if wrote:
+                    seen_vars.add(v)
+                if wrote and not records:
+                    P['own'] = P['own'] or (f'a {cls} gets a {v!r} column although it does not record that variable', writes[0][4])
+                elif records and wrote and not own_true:
+                    P['flags'] = P['flags'] or (f'the {v!r} column of a {cls} is written without its computability flag(s) {sorted(F)} being true', writes[0][4])
+                elif records and not wrote and own_true and not own_false:
+                    extra = sorted(k for k, val in flags.items() if k not in F and val is False)
+                    unit_guard = [g.show(sx.ctx)[:60] for g in o.state.guards if not (g.kind == 'truth' and str(g.key[0]).endswith('_is_computable'))]
+                    if extra:
+                        P['flags'] = P['flags'] or (f'the {v!r} column of a {cls} additionally depends on {extra}: selecting {v!r} alone returns an '
+                                                    f'empty (NaN) column when that other quantity is not computable', o.loc or m.node.lineno)
+                    else:
+                        P['own'] = P['own'] or (f'the {v!r} column of a {cls} is not written although {v!r} is selected and recorded '
+                                                f'(remaining conditions: {unit_guard[:2]}): selecting {v!r} alone returns an empty (NaN) column', o.loc or m.node.lineno)
+                if not wrote:
+                    continue
+                # the cell: interp#k@j
+                val = writes[0][3]
+                atom = next(iter(val.term.atoms())) if isinstance(val, N) and len(val.term.atoms()) == 1 else ''
+                mm = re.match(r'interp#(\d+)@(\d+)$', atom)
+                if not mm or not sx.ctx.eq(val.term, Rat.atom(atom)):
+                    P['interp'] = P['interp'] or (f'the {v!r} value is `{sx.show(val)[:70]}`, not the interpolant of the recorded samples evaluated at '
+                                                  f'the target time', writes[0][4])
+                    continue
+                it = interps[int(mm.group(1))]
+                kw = it['kw']
+                x = kw.get('x', it['args'][0] if it['args'] else None)
+                y = kw.get('y', it['args'][1] if len(it['args']) > 1 else None)
+                q = it['queries'][int(mm.group(2))]
+                kind = kw.get('kind')
+                if kind is not None and not (isinstance(kind, Sv) and kind.s == 'linear') and not (isinstance(kind, N) and kind.term.eq(Rat.const(1))):
+                    P['interp'] = P['interp'] or (f'interpolation kind {sx.show(kind)}, linear is specified', writes[0][4])
+                if not (isinstance(x, Mv) and x.src == 'self.time' and not x.filtered and len(x.cases) == 1 and not x.cases[0][0]
+                        and isinstance(x.cases[0][1], N) and isinstance(q, N)):
+                    P['interp'] = P['interp'] or (f'abscissae `{sx.show(x)[:60]}` / query `{sx.show(q)[:40]}`: not the recorded instants and the '
+                                                  f'target time as plain numbers', writes[0][4])
+                else:
+                    tx, tq = x.cases[0][1].term, q.term
+                    if not sx.ctx.eq(tx * T, tq * Rat.atom('each(self.time)')):
+                        P['interp'] = P['interp'] or (f'abscissae `{sx.ctx.show(sx.ctx.reduce(tx))[:60]}` but query `{sx.ctx.show(sx.ctx.reduce(tq))[:60]}`: '
+                                                      f'both must be the same function of the instant (same time unit)', writes[0][4])
+                src = f"el.time_variables[{v!r}]"
+                if param is None:
+                    if not (sx.show(y).endswith(f'time_variables[{v!r}]')):
+                        P['pair'] = P['pair'] or (f'the {v!r} column is filled from `{sx.show(y)[:60]}`', writes[0][4])
+                else:
+                    okp = isinstance(y, Mv) and y.src.endswith(f'time_variables[{v!r}]') and not y.filtered and len(y.cases) == 1 \
+                        and not y.cases[0][0] and isinstance(y.cases[0][1], N)
+                    if not okp:
+                        P['pair'] = P['pair'] or (f'the {v!r} column is filled from `{sx.show(y)[:70]}`, not from one converted value per sample of '
+                                                  f'time_variables[{v!r}]', writes[0][4])
+                    else:
+                        want = Rat.atom(f'each({y.src})') / sx.ufactor(VARIABLE_KINDS[v], U(sym=param))
+                        if not sx.ctx.eq(y.cases[0][1].term, want):
+                            P['pair'] = P['pair'] or (f'the {v!r} samples are converted as `{sx.ctx.show(sx.ctx.reduce(y.cases[0][1].term))[:80]}` but the '
+                                                      f'column is labelled with {param}', writes[0][4])
+    rep.inspect(n_eval)
+    for v in UNIT_PARAM:
         cons = f'Powertrain.snapshot[{v}]'
-        mem = []
-        flags = set()
-        for test, pol in wr['guards']:
-            mm = membership(test, wr['env'])
-            if mm:
-                mem.append((mm[0], mm[1] and pol))
-            for n in ast.walk(test):
-                if isinstance(n, ast.Attribute) and n.attr.endswith('_is_computable'):
-                    flags.add(n.attr)
-        own = [x for x in mem if x[0] == v and x[1]]
-        foreign = sorted({x[0] for x in mem if x[0] != v})
-        ok = bool(own) and not foreign
-        why = ''
-        if not own:
-            why = (f'the {v!r} column is written without testing that {v!r} is among the selected variables (the column appears even '
-                   f'when it was not requested)')
-        elif foreign:
-            why = (f'the {v!r} column is written only if {foreign} are selected as well: selecting {v!r} alone returns an empty (NaN) column')
-        rep.decide(ok, 'C18.own-guard', cons, why, loc=loc)
-        # pairing
-        want = UNIT_PARAM[v]
-        okp, whyp = True, ''
-        if want is None:
-            if wr['label_unit'] is not None or wr['conv_unit'] is not None:
-                okp, whyp = False, f'{v} is unit-less but is labelled/converted with {wr["label_unit"]}/{wr["conv_unit"]}'
-        else:
-            if uname(wr['label_unit']) != want:
-                okp, whyp = False, f'the {v!r} column is labelled with {uname(wr["label_unit"])}, its own unit parameter is {want}'
-            elif uname(wr['conv_unit']) != want:
-                okp, whyp = False, f'the {v!r} samples are converted to {uname(wr["conv_unit"])} but labelled with {want}'
-        if wr['data_key'] != v:
-            okp, whyp = False, f'the {v!r} column is filled from time_variables[{wr["data_key"]!r}]'
-        rep.decide(okp, 'C18.pairing', cons, whyp, loc=loc)
-        # computability guards: only the variable's own flags
-        extra = flags - FLAG_OF.get(v, set())
-        rep.decide(not extra, 'C18.own-guard', cons + ':flags', f'the {v!r} column additionally depends on {sorted(extra)}', loc=loc)
-        # interpolation
-        oki, whyi = True, ''
-        if wr['interp'] is None or not ast.unparse(wr['interp'].func).endswith('interp1d'):
-            oki, whyi = False, 'the value is not obtained from interp1d over the recorded samples'
-        else:
-            k = wr['kind']
-            if k is not None and not (isinstance(k, ast.Constant) and k.value in ('linear', 1)):
-                oki, whyi = False, f'interpolation kind {ast.unparse(k)}, linear is specified'
-            elif wr['xunit'] != 'sec' or wr['qunit'] != 'sec':
-                oki, whyi = False, (f'abscissae in {wr["xunit"]!r} but query in {wr["qunit"]!r}: both must be in the same time unit')
-        rep.decide(oki, 'C18.interp', cons, whyi, loc=loc)
+        P = problems[v]
+        for rule, key, c2 in (('C18.own-guard', 'own', cons), ('C18.own-guard', 'flags', cons + ':flags'), ('C18.pairing', 'pair', cons),
+                              ('C18.interp', 'interp', cons)):
+            rep.decide(P[key] is None, rule, c2, P[key][0] if P[key] else '', loc=f'{m.module}:{P[key][1] if P[key] else m.node.lineno}',
+                       detail=f'{len(classes)} element classes x selection [{v!r}]')
     missing = sorted(set(UNIT_PARAM) - seen_vars)
     rep.decide(not missing, 'C18.own-guard', 'Powertrain.snapshot:variables', f'no column write found for {missing}', loc=m.loc)
     # columns mapping (UNITS dict)
